@@ -2029,6 +2029,7 @@ class Piece:
             # stands as it is - a failure in the function is then not a verdict
             rkey_ = f"{self.relpath}::{self.spec}::{fn.name}"
             self.unit.rwcounts.setdefault(rkey_, []).append(len(ms))
+            self.unit.rwloops.setdefault(rkey_, []).append(bool(re.search(r"\b(?:for|while|loop)\b", pat)))
             for m in ms:
                 new = m.expand(repl) if isinstance(repl, str) else repl(m)
                 self._add(wstart + m.start(), wstart + m.end(), new, rule)
@@ -2456,6 +2457,7 @@ class Unit:
         except Exception:
             self.baseline_opaque = None
         self.rwcounts = {}      # verified function -> how many times each of its rewrite rules applied, in the order of the rules
+        self.rwloops = {}       # ... and whether the rule's pattern is a loop (a rule that replaces a loop by its model)
         try:
             import json as _json4
             self.baseline_rwcounts = _json4.load(open(os.path.join(VERIF, "baseline_shapes.json"))).get("__rewrites__", {}).get(name)
@@ -2823,7 +2825,12 @@ class Unit:
                             for nm_ in (p.fnspecs or {}):
                                 rk_ = f"{okey_}::{nm_}"
                                 wantr_ = (self.baseline_rwcounts or {}).get(rk_)
-                                if wantr_ is not None and self.rwcounts.get(rk_, []) != wantr_:
+                                gotr_ = self.rwcounts.get(rk_, [])
+                                # (what matters is a *loop* the contract counted on being replaced by its model and that now stands as it is -
+                                # without an invariant; a rule that applies more often, or a rule for a call that is now spelt another way,
+                                # leaves code that is verified as it stands or not accepted at all)
+                                if wantr_ is not None and (len(gotr_) != len(wantr_) or any(
+                                        lp_ and g_ < w_ for g_, w_, lp_ in zip(gotr_, wantr_, self.rwloops.get(rk_, [])))):
                                     self.rebound.add(nm_)
                                     self.rewired.add(nm_)
                             for nm_, fs_ in (p.fnspecs or {}).items():
